@@ -80,6 +80,14 @@ CHECKS += [
           'trusted: TLC, g++ sanitizers, the family generator; the arity/type axis is generated C++ (the spec contributes aliasing and capture semantics)', 'tla-binding'),
 ]
 
+CHECKS += [
+    other('C12', 'MCConc.tla: TLC explores every interleaving of the critical sections of small thread programs and checks lock discipline and linearizability against all sequential executions (and must reject the pinned-code variant AsIs_D7); '
+                 'implementation: seeded concurrent programs (2-3 threads; calls, creation with/without IN_SEQUENCE and TIMES, release, is_satisfied / is_saturated / is_completed, watch / destroy watched object, destroy own mock) run on the real library built with ThreadSanitizer, an instrumented lock (custom recursive mutex seam: owner, tickets, random yields) and the verification hooks; '
+                 'three observers of the same runs: TSan reports, the lock-held flag of every hook event on shared state, and a linearization replay - every critical section in lock-ticket order through Core!Step with every operation result compared by TLC',
+          'TLA+ concurrency model (TLC, exhaustive interleavings of critical sections) + TLC trace validation of real concurrent executions linearized by lock tickets + TSan + lock-discipline hooks', '6/C12',
+          'trusted: TLC, TSan, the instrumented mutex; schedules on the implementation are sampled (exhaustive only in the model); caller obligations of the property are generator preconditions', 'tla-core'),
+]
+
 NOT_YET = {
     'C09': 'check under construction in this round (generated program family + Binding.tla); not claimed until it runs clean',
     'C10': 'check under construction in this round (Matchers.tla + matcher driver); not claimed until it runs clean',
@@ -96,9 +104,9 @@ def main():
         version=1,
         setup_cmd='python3 harness/setup.py',
         hooks=dict(guard='ROLLBEAR_TROMPELOEIL_VERIF',
-                   enable='-DROLLBEAR_TROMPELOEIL_VERIF on the C12 driver build only (no hook commit exists yet; the sequential checks use the public API only)',
+                   enable='-DROLLBEAR_TROMPELOEIL_VERIF (together with -DTROMPELOEIL_CUSTOM_RECURSIVE_MUTEX) on the C12 concurrent driver build only (harness/lib.py build_conc); every other check uses the public API without hooks',
                    baseline_off_cmd='cmake -G Ninja -S /repo -B /repo/_build -DCMAKE_BUILD_TYPE=RelWithDebInfo -DCMAKE_CXX_FLAGS=-Wno-error -DTROMPELOEIL_BUILD_TESTS=yes && cmake --build /repo/_build && ctest --test-dir /repo/_build -j8 --timeout 900 --output-junit /repo/_build/junit.xml',
-                   source_commits=[], add_only=True),
+                   source_commits=['dd58f2e893301b4b4e053f610c645850221b171e'], add_only=True),
         engines=[dict(name='tla-binding', path='spec/Binding.tla', serves_properties=['C09'], kind_free_text='TLA+ store model + expected observations for a generated program family'),
                  dict(name='tla-coro', path='spec/Coro.tla', serves_properties=['C20'], kind_free_text='TLA+ spec + TLC model checking + trace validation of mocked coroutines (C++20 driver)'),
                  dict(name='tla-clauses', path='spec/Clauses.tla', serves_properties=['C19'], kind_free_text='TLA+ typestate machine, TLC-generated transition cover compiled by g++'),
